@@ -24,7 +24,10 @@ EXTENDS Values, Json, IOUtils, TLC
 
 PoolRecs == ndJsonDeserialize(IOEnv.VERIF_POOL)   \* [1] header, then n matrix-pool values, then the sort pool
 Recs     == ndJsonDeserialize(IOEnv.VERIF_RECS)   \* rows of build 1 (n), hash records of builds 2.. (n each), sort records
-VARIABLE i
+\* NOTE: the state variable must not be named like any operator parameter of the extended modules
+\* (BitInt uses i, k, m, ...): TLC would classify every use of those operators as state-level and
+\* stop caching constant definitions such as OrdTab.
+VARIABLE recno
 
 Hdr   == PoolRecs[1]
 N     == Hdr.n
@@ -125,20 +128,28 @@ HashGood(r) ==
 (* "id" (no key function) or "t0" (key = lambda t: t[0]).                   *)
 (***************************************************************************)
 KeyOf(mode, v) == IF mode = "t0" THEN v.v[1] ELSE v
-KeysOf(r) == [k \in 1..Len(r.s) |-> KeyOf(r.key, SV(r.s[k]))]
+S == Hdr.s
+\* Values.Ord of the sort keys of every two sort-pool values, tabulated once (TLCEval: functions are lazy in TLC)
+OrdTab == TLCEval([mode \in {"id", "t0"} |->
+             TLCEval([a \in 1..S |-> TLCEval([b \in 1..S |->
+                IF mode = "t0" /\ (SV(a).t # "tuple" \/ SV(b).t # "tuple") THEN Unord
+                ELSE Ord(KeyOf(mode, SV(a)), KeyOf(mode, SV(b)))])])])
 
 SortGood(r) ==
-  LET keys == KeysOf(r) IN
-  IF ~AllOrdered(keys) THEN Report(r, "sorted-unordered-accepted", Pairs1({j \in {0} : r.res.ok}))
-  ELSE LET perm == StableSortPerm(keys, r.rev)
+  LET n == Len(r.s)
+      C(a, b) == OrdTab[r.key][r.s[a]][r.s[b]]
+  IN
+  IF ~AllOrderedBy(n, C) THEN Report(r, "sorted-unordered-accepted", Pairs1({j \in {0} : r.res.ok}))
+  ELSE LET perm == StableSortPermBy(n, C, r.rev)
            exp  == [k \in 1..Len(perm) |-> r.s[perm[k]]]
-       IN /\ IsStableSorted(keys, r.rev, perm) \/ PrintT(<<"SPECBUG", r.id>>)
+       IN /\ IsStableSortedBy(n, C, r.rev, perm) \/ PrintT(<<"SPECBUG", r.id>>)
           /\ Report(r, "sorted", Pairs1({j \in {0} : ~r.res.ok \/ r.res.v # exp}))
 
 ExtGood(r) ==
-  LET keys == KeysOf(r)
-      idx  == IF r.op = "min" THEN MinIdx(keys) ELSE MaxIdx(keys)
-  IN IF Len(r.s) = 0 \/ ~AllOrdered(keys) THEN Report(r, r.op \o "-accepted", Pairs1({j \in {0} : r.res.ok}))
+  LET n == Len(r.s)
+      C(a, b) == OrdTab[r.key][r.s[a]][r.s[b]]
+      idx  == IF r.op = "min" THEN MinIdxBy(n, C) ELSE MaxIdxBy(n, C)
+  IN IF n = 0 \/ ~AllOrderedBy(n, C) THEN Report(r, r.op \o "-accepted", Pairs1({j \in {0} : r.res.ok}))
      ELSE /\ Report(r, r.op, Pairs1({j \in {0} : ~r.res.ok \/ ~\E a \in idx : r.s[a] = r.res.v}))
           \* doc/spec.md does not say which of several extrema is returned: noted, not judged
           /\ (~r.res.ok \/ r.s[MinOfSet(idx)] = r.res.v \/ PrintT(<<"NOTFIRST", r.id>>))
@@ -153,9 +164,9 @@ Good(r) == CASE r.op = "row" -> RowGood(r)
 (* then K strided chains over the records.                                  *)
 (***************************************************************************)
 K == 64
-Init == i = 0
-Next == IF i = 0 THEN i' \in 1..(IF Len(Recs) < K THEN Len(Recs) ELSE K)
-        ELSE i + K <= Len(Recs) /\ i' = i + K
-Check == i = 0 \/ Good(Recs[i])
+Init == recno = 0
+Next == IF recno = 0 THEN recno' \in 1..(IF Len(Recs) < K THEN Len(Recs) ELSE K)
+        ELSE recno + K <= Len(Recs) /\ recno' = recno + K
+Check == recno = 0 \/ Good(Recs[recno])
 Done == PrintT(<<"CHECKED", TLCGet("stats").distinct - 1>>)
 =============================================================================
